@@ -491,6 +491,11 @@ fn set_prog(cx: &mut Ctx, thorough: bool, worker: u64, workers: u64) {
         call_m("chmod", "/s/d/g", 0o604, 0),
         call("symlink", "/s/l", "/s/d"),
         call("mkdir_p", "/t", ""),
+        // chains of links (a link to a link to a directory / to a file) outside /s
+        call("symlink", "/c1", "/s/l"),
+        call("symlink", "/c2", "/c1"),
+        call("symlink", "/m1", "/s/f"),
+        call("symlink", "/m2", "/m1"),
     ];
     let maxlen = if thorough { 4 } else { 3 };
     fn seqs(alpha: &[(u8, u32)], maxlen: usize) -> Vec<Vec<(u8, u32)>> {
@@ -523,6 +528,13 @@ fn set_prog(cx: &mut Ctx, thorough: bool, worker: u64, workers: u64) {
     }
     for p in seqs(&copy_alpha, maxlen) {
         calls.push(call_seq("copy_seq", "/s", "/t/c", &p));
+    }
+    // with follow on chains of links: where the change lands is judged only as far as it is settled, but no link's own mode
+    // may ever change (VfsJudge!LinkModesKept)
+    for target in ["/c2", "/c1", "/m2", "/m1", "/s/l"] {
+        for p in [vec![(4u8, 0u32), (1, 0o700)], vec![(4, 0), (7, 0)], vec![(4, 0), (3, 0o640)], vec![(4, 0), (2, 0o711), (6, 0)], vec![(4, 0), (7, 2), (6, 0)]] {
+            calls.push(call_seq("chmod_seq", target, "", &p));
+        }
     }
     let mine: Vec<Value> = calls.into_iter().enumerate().filter(|(i, _)| (*i as u64) % workers == worker).map(|(_, c)| c).collect();
     for chunk in mine.chunks(MAX_STEPS / 2) {
